@@ -20,6 +20,11 @@ def scripted():
     ops += [c("c2", "MULTI"), c("c1", "MULTI"), c("c2", "SET", "z", "2"), c("c1", "SET", "z", "1"), c("c1", "EXEC"), c("c2", "EXEC"), c("c1", "GET", "z")]
     ops += [c("c1", "MULTI"), c("c1", "WATCH", "k"), c("c1", "SET", "k", "5"), c("c1", "EXEC"), c("c1", "GET", "k")]
     ops += [c("c1", "MULTI"), c("c1", "UNWATCH"), c("c1", "PING"), c("c1", "EXEC")]
+    # queued reads run at EXEC time: after the queued writes and after other clients' writes in between
+    for rd in (("DBSIZE",), ("KEYS", "*"), ("EXISTS", "q1", "q2"), ("GET", "q1"), ("LLEN", "ql"), ("LRANGE", "ql", "0", "-1"), ("SCARD", "qs"), ("SMEMBERS", "qs"),
+               ("HGETALL", "qh"), ("ZRANGE", "qz", "0", "-1"), ("TYPE", "q1"), ("SCAN", "0"), ("TTL", "q1"), ("MGET", "q1", "q2")):
+        ops += [c("c2", "FLUSHDB"), c("c1", "MULTI"), c("c1", "SET", "q1", "1"), c("c1", "RPUSH", "ql", "a"), c("c1", "SADD", "qs", "m"), c("c1", "HSET", "qh", "f", "v"),
+                c("c1", "ZADD", "qz", "1", "m"), c("c1", *rd), c("c1", "DEL", "q1", "ql"), c("c1", *rd), c("c2", "SET", "q2", "other"), c("c1", "EXEC"), c("c1", *rd)]
     ops.append("dump")
     return ops
 
